@@ -212,4 +212,428 @@ theorem querySafe : Safe queryPlain queryStop querySep 0x26 where
   sep_sep := by decide
   plain_pct := by decide
 
+/-! ### the segment loop -/
+
+theorem pStop_eq : pStop = pathStop := rfl
+theorem pSep_eq : pSep = pathSep := rfl
+theorem qStop_eq : qStop = queryStop := rfl
+theorem qSep_eq : qSep = querySep := rfl
+
+/-- if the handler, given a segment as (pointer into the buffer, length), always succeeds with a result that
+depends on the segment's bytes only, the loop is a fold over the raw segments -/
+theorem segLoop_eq {σ : Type} (h : Bytes → Nat → σ → R σ) (hS : Bytes → σ → σ) (stop sep : UInt8 → Bool)
+    (hh : ∀ seg rest st, h (seg ++ rest) seg.length st = R.ok (hS seg st)) (q cur : Bytes) (st : σ) :
+    segLoop h stop sep q (cur ++ q) cur.length st = R.ok ((splitAcc stop sep q cur).foldl (fun s seg => hS seg s) st) := by
+  induction q generalizing cur st with
+  | nil =>
+    have := hh cur [] st
+    simp at this
+    simp [segLoop, splitAcc, this]
+  | cons c q' ih =>
+    by_cases h1 : stop c = true
+    · simp [segLoop, splitAcc, h1, hh]
+    · by_cases h2 : sep c = true
+      · have := ih [] (hS cur st)
+        simp at this
+        simp [segLoop, splitAcc, h1, h2, hh, this]
+      · have := ih (cur ++ [c]) st
+        simp at this
+        simp [segLoop, splitAcc, h1, h2, this]
+
+/-! ### dots() -/
+
+/-- is the first "character" of the segment a dot, and how many bytes is it -/
+def dotLen : Bytes → Option Nat
+  | [] => none
+  | c :: t =>
+    if c = 0x25 ∧ (c :: t).length ≥ 3 then
+      match t with
+      | a :: b :: _ => if a = 0x32 then (if b = 0x45 ∨ b = 0x65 then some 3 else none) else none
+      | _ => none
+    else if c = 0x2e then some 1 else none
+
+def dotKind (seg : Bytes) : Nat :=
+  if seg = [] then 0 else
+  match dotLen seg with
+  | none => 0
+  | some k =>
+    if seg.length - k = 0 then 1 else
+    match dotLen (seg.drop k) with
+    | none => 0
+    | some k2 => if seg.length - k - k2 = 0 then 2 else 0
+
+theorem dotChar_eq (seg rest : Bytes) (hne : seg ≠ []) : dotChar (seg ++ rest) seg.length = R.ok (dotLen seg) := by
+  cases seg with
+  | nil => exact absurd rfl hne
+  | cons c t =>
+    by_cases hc : c = 0x25
+    · subst hc
+      cases t with
+      | nil => simp [dotChar, rdb, dotLen]
+      | cons a t1 =>
+        cases t1 with
+        | nil => simp [dotChar, rdb, dotLen]
+        | cons b t2 =>
+          by_cases ha : a = 0x32 <;> by_cases hb : b = 0x45 ∨ b = 0x65 <;> simp [dotChar, rdb, dotLen, ha, hb]
+    · by_cases hd : c = 0x2e <;> simp [dotChar, rdb, dotLen, hc, hd]
+
+theorem dotLen_le (seg : Bytes) (k : Nat) (h : dotLen seg = some k) : k ≤ seg.length ∧ 0 < k := by
+  cases seg with
+  | nil => simp [dotLen] at h
+  | cons c t =>
+    by_cases hc : c = 0x25
+    · subst hc
+      cases t with
+      | nil => simp [dotLen] at h
+      | cons a t1 =>
+        cases t1 with
+        | nil => simp [dotLen] at h
+        | cons b t2 =>
+          by_cases ha : a = 0x32 <;> by_cases hb : b = 0x45 ∨ b = 0x65 <;> simp [dotLen, ha, hb] at h
+          subst h; simp
+    · by_cases hd : c = 0x2e <;> simp [dotLen, hc, hd] at h
+      subst h; simp
+
+theorem dots_eq (seg rest : Bytes) : dots (seg ++ rest) seg.length = R.ok (dotKind seg) := by
+  by_cases hne : seg = []
+  · subst hne; simp [dots, dotKind]
+  · have hl : seg.length ≠ 0 := by simpa using hne
+    unfold dots dotKind
+    rw [dotChar_eq seg rest hne]
+    simp only [hl, hne, if_false]
+    cases hk : dotLen seg with
+    | none => rfl
+    | some k =>
+      have ⟨hle, hpos⟩ := dotLen_le seg k hk
+      by_cases h0 : seg.length - k = 0
+      · simp [h0]
+      · simp only [h0, if_false]
+        have hne2 : seg.drop k ≠ [] := by
+          intro e
+          have := congrArg List.length e
+          simp at this; omega
+        have hd : (seg ++ rest).drop k = seg.drop k ++ rest := by
+          rw [List.drop_append_of_le_length hle]
+        have hlen : seg.length - k = (seg.drop k).length := by simp
+        rw [hd, hlen, dotChar_eq _ rest hne2]
+        cases dotLen (seg.drop k) with
+        | none => rfl
+        | some k2 => by_cases h3 : seg.length - k - k2 = 0 <;> simp [h3]
+
+/-! ### hex tables (T1) against RFC 3986 HEXDIG -/
+
+def hexRow (n : Nat) : Bool :=
+  match hexDigitVal (UInt8.ofNat n) with
+  | some x => Generated.Uri.hexDecTab.getD n 0 == x && Generated.Uri.xdigitTab.getD n false && decide (x < 16)
+  | none => !Generated.Uri.xdigitTab.getD n false
+
+set_option maxRecDepth 100000 in
+theorem hex_tab : ∀ n, n < 256 → hexRow n = true := by decide
+
+theorem hex_some (c : UInt8) (x : Nat) (h : hexDigitVal c = some x) : hexDec c = x ∧ isXdigit c = true ∧ x < 16 := by
+  have := hex_tab c.toNat c.toNat_lt
+  simp only [hexRow, UInt8.ofNat_toNat, h, Bool.and_eq_true, beq_iff_eq, decide_eq_true_eq] at this
+  exact ⟨this.1.1, this.1.2, this.2⟩
+
+theorem hex_none (c : UInt8) (h : hexDigitVal c = none) : isXdigit c = false := by
+  have := hex_tab c.toNat c.toNat_lt
+  simp only [hexRow, UInt8.ofNat_toNat, h, Bool.not_eq_true'] at this
+  exact this
+
+set_option maxRecDepth 100000 in
+theorem hex_inv2 : ∀ n, n < 256 → hexDigitVal (UInt8.ofNat n) = some 2 → n = 50 := by decide
+set_option maxRecDepth 100000 in
+theorem hex_inv14 : ∀ n, n < 256 → hexDigitVal (UInt8.ofNat n) = some 14 → n = 69 ∨ n = 101 := by decide
+
+theorem hex_is2 (c : UInt8) (h : hexDigitVal c = some 2) : c = 0x32 := by
+  have := hex_inv2 c.toNat c.toNat_lt (by simpa using h)
+  exact UInt8.toNat_inj.mp this
+
+theorem hex_is14 (c : UInt8) (h : hexDigitVal c = some 14) : c = 0x45 ∨ c = 0x65 := by
+  rcases hex_inv14 c.toNat c.toNat_lt (by simpa using h) with h | h
+  · exact Or.inl (UInt8.toNat_inj.mp h)
+  · exact Or.inr (UInt8.toNat_inj.mp h)
+
+/-- shape of a successful decoding, by the first byte -/
+theorem pctDecode_cons_inv (c : UInt8) (r d : Bytes) (h : pctDecode (c :: r) = some d) :
+    (c ≠ 0x25 ∧ ∃ t, pctDecode r = some t ∧ d = c :: t) ∨
+    (c = 0x25 ∧ ∃ a b r' x y t, r = a :: b :: r' ∧ hexDigitVal a = some x ∧ hexDigitVal b = some y ∧
+        pctDecode r' = some t ∧ d = UInt8.ofNat (x * 16 + y) :: t) := by
+  rw [pctDecode.eq_def] at h
+  by_cases hc : c = 0x25
+  · right
+    refine ⟨hc, ?_⟩
+    simp only [hc, if_true] at h
+    cases r with
+    | nil => simp at h
+    | cons a r1 =>
+      cases r1 with
+      | nil => simp at h
+      | cons b r' =>
+        simp only at h
+        cases hx : hexDigitVal a with
+        | none => simp [hx] at h
+        | some x =>
+          cases hy : hexDigitVal b with
+          | none => simp [hx, hy] at h
+          | some y =>
+            cases ht : pctDecode r' with
+            | none => simp [hx, hy, ht] at h
+            | some t =>
+              simp only [hx, hy, ht, Option.some.injEq] at h
+              exact ⟨a, b, r', x, y, t, rfl, hx, hy, ht, h.symm⟩
+  · left
+    refine ⟨hc, ?_⟩
+    simp only [hc, if_false] at h
+    cases ht : pctDecode r with
+    | none => simp [ht] at h
+    | some t => simp [ht] at h; exact ⟨t, rfl, h.symm⟩
+
+theorem ofNat_mod256 (n : Nat) : UInt8.ofNat (n % 256) = UInt8.ofNat n := by
+  apply UInt8.toNat_inj.mp
+  simp
+
+theorem replacePercents_eq (seg d : Bytes) (h : pctDecode seg = some d) : replacePercents seg = d := by
+  induction seg using replacePercents.induct generalizing d with
+  | case1 => simp [pctDecode] at h; simp [replacePercents, h]
+  | case2 a b r' ih =>
+    rcases pctDecode_cons_inv _ _ _ h with ⟨hc, _⟩ | ⟨_, a', b', r'', x, y, t, hr, hx, hy, ht, hd⟩
+    · exact absurd rfl hc
+    · cases hr
+      simp only [replacePercents, if_true]
+      rw [(hex_some _ _ hx).1, (hex_some _ _ hy).1, ih t ht, ofNat_mod256, hd]
+  | case3 c a b r' hc ih =>
+    rcases pctDecode_cons_inv _ _ _ h with ⟨_, t, ht, hd⟩ | ⟨hc', _⟩
+    · simp only [replacePercents, hc, if_false]
+      rw [ih t ht, hd]
+    · exact absurd hc' hc
+  | case4 c r hnot ih =>
+    rcases pctDecode_cons_inv _ _ _ h with ⟨hc, t, ht, hd⟩ | ⟨_, a', b', r'', x, y, t, hr, _⟩
+    · rw [replacePercents]
+      · rw [ih t ht, hd]
+      · exact hnot
+    · exact absurd hr (hnot a' b' r'')
+
+/-! ### dots() against the decoded value -/
+
+theorem pctDecode_nil_inv (s : Bytes) (h : pctDecode s = some []) : s = [] := by
+  cases s with
+  | nil => rfl
+  | cons c r =>
+    rcases pctDecode_cons_inv _ _ _ h with ⟨_, t, _, hd⟩ | ⟨_, _, _, _, _, _, _, _, _, _, _, hd⟩ <;> cases hd
+
+theorem byte_2e (x y : Nat) (hx : x < 16) (hy : y < 16) (h : UInt8.ofNat (x * 16 + y) = 0x2e) : x = 2 ∧ y = 14 := by
+  have := congrArg UInt8.toNat h
+  simp at this
+  omega
+
+/-- a decodable segment starts with a dot character iff its decoding starts with '.' -/
+theorem dotLen_decode (seg d : Bytes) (h : pctDecode seg = some d) :
+    (∀ k, dotLen seg = some k → ∃ d', d = 0x2e :: d' ∧ pctDecode (seg.drop k) = some d') ∧
+    (dotLen seg = none → d.head? ≠ some 0x2e) := by
+  cases seg with
+  | nil => simp [pctDecode] at h; subst h; simp [dotLen]
+  | cons c t =>
+    rcases pctDecode_cons_inv _ _ _ h with ⟨hc, t', ht, hd⟩ | ⟨hc, a, b, r', x, y, t', hr, hx, hy, ht, hd⟩
+    · subst hd
+      by_cases h2 : c = 0x2e
+      · subst h2; simp [dotLen, ht]
+      · simp [dotLen, hc, h2]
+    · subst hc; subst hr
+      have ⟨_, _, hx16⟩ := hex_some _ _ hx
+      have ⟨_, _, hy16⟩ := hex_some _ _ hy
+      have key : UInt8.ofNat (x * 16 + y) = 0x2e ↔ (a = 0x32 ∧ (b = 0x45 ∨ b = 0x65)) := by
+        constructor
+        · intro e
+          have ⟨e1, e2⟩ := byte_2e x y hx16 hy16 e
+          subst e1; subst e2
+          exact ⟨hex_is2 a hx, hex_is14 b hy⟩
+        · intro ⟨ha, hb⟩
+          subst ha
+          have hx2 : x = 2 := by
+            have : hexDigitVal 0x32 = some 2 := by decide
+            rw [this] at hx; exact (Option.some.inj hx).symm
+          have hy14 : y = 14 := by
+            rcases hb with hb | hb <;> subst hb
+            · have : hexDigitVal 0x45 = some 14 := by decide
+              rw [this] at hy; exact (Option.some.inj hy).symm
+            · have : hexDigitVal 0x65 = some 14 := by decide
+              rw [this] at hy; exact (Option.some.inj hy).symm
+          rw [hx2, hy14]; rfl
+      generalize UInt8.ofNat (x * 16 + y) = v at hd key
+      subst hd
+      by_cases ha : a = 0x32
+      · by_cases hb : b = 0x45 ∨ b = 0x65
+        · have e : v = 0x2e := key.mpr ⟨ha, hb⟩
+          simp [dotLen, ha, hb, e, ht]
+        · have ne : v ≠ 0x2e := fun e => hb (key.mp e).2
+          simp [dotLen, ha, hb, ne]
+      · have ne : v ≠ 0x2e := fun e => ha (key.mp e).1
+        simp [dotLen, ha, ne]
+
+theorem dotKind_decode (seg d : Bytes) (h : pctDecode seg = some d) :
+    dotKind seg = if d = dot1 then 1 else if d = dot2 then 2 else 0 := by
+  unfold dotKind
+  by_cases hne : seg = []
+  · subst hne; simp [pctDecode] at h; subst h; simp [dot1, dot2]
+  · simp only [hne, if_false]
+    have ⟨h1, h2⟩ := dotLen_decode seg d h
+    cases hk : dotLen seg with
+    | none =>
+      have := h2 hk
+      have n1 : d ≠ dot1 := by intro e; subst e; simp [dot1] at this
+      have n2 : d ≠ dot2 := by intro e; subst e; simp [dot2] at this
+      simp [n1, n2]
+    | some k =>
+      obtain ⟨d', hd, hdec⟩ := h1 k hk
+      have ⟨hle, hpos⟩ := dotLen_le seg k hk
+      by_cases h0 : seg.length - k = 0
+      · have : seg.drop k = [] := by apply List.eq_nil_of_length_eq_zero; simp; omega
+        rw [this] at hdec; simp [pctDecode] at hdec
+        subst hdec; subst hd; simp [h0, dot1]
+      · have hne2 : seg.drop k ≠ [] := by
+          intro e; have := congrArg List.length e; simp at this; omega
+        have hd'ne : d' ≠ [] := by
+          intro e; subst e; exact hne2 (pctDecode_nil_inv _ hdec)
+        have n1 : d ≠ dot1 := by subst hd; simp [dot1, hd'ne]
+        simp only [h0, if_false, n1]
+        have ⟨g1, g2⟩ := dotLen_decode (seg.drop k) d' hdec
+        cases hk2 : dotLen (seg.drop k) with
+        | none =>
+          have := g2 hk2
+          have n2 : d ≠ dot2 := by
+            subst hd; intro e; simp [dot2] at e; subst e; simp at this
+          simp [n2]
+        | some k2 =>
+          obtain ⟨d'', hd2, hdec2⟩ := g1 k2 hk2
+          have ⟨hle2, hpos2⟩ := dotLen_le _ k2 hk2
+          simp at hle2
+          by_cases h3 : seg.length - k - k2 = 0
+          · have : (seg.drop k).drop k2 = [] := by apply List.eq_nil_of_length_eq_zero; simp; omega
+            rw [this] at hdec2; simp [pctDecode] at hdec2
+            subst hdec2; subst hd2; subst hd; simp [h3, dot2]
+          · have hne3 : (seg.drop k).drop k2 ≠ [] := by
+              intro e; have := congrArg List.length e; simp at this; omega
+            have : d'' ≠ [] := by intro e; subst e; exact hne3 (pctDecode_nil_inv _ hdec2)
+            have n2 : d ≠ dot2 := by subst hd; subst hd2; simp [dot2, this]
+            simp [h3, n2]
+
+/-! ### the optlist builders -/
+
+theorem copySeg_eq (seg rest : Bytes) : copySeg (seg ++ rest) seg.length = R.ok seg := by
+  simp [copySeg]
+
+/-- what coap_path_into_optlist does with one raw segment -/
+def pathStepM (seg : Bytes) (acc : List Bytes) : List Bytes :=
+  if dotKind seg = 1 then acc else if dotKind seg = 2 then acc.dropLast else acc ++ [replacePercents seg]
+
+theorem pathHandlerOpt_eq (seg rest : Bytes) (acc : List Bytes) :
+    pathHandlerOpt (seg ++ rest) seg.length acc = R.ok (pathStepM seg acc) := by
+  unfold pathHandlerOpt pathStepM
+  rw [dots_eq]
+  by_cases h1 : dotKind seg = 1
+  · simp [h1]
+  · by_cases h2 : dotKind seg = 2
+    · simp [h2]
+    · simp [h1, h2, addOpt, copySeg_eq]
+
+theorem addOpt_eq (seg rest : Bytes) (acc : List Bytes) :
+    addOpt (seg ++ rest) seg.length acc = R.ok (acc ++ [replacePercents seg]) := by
+  simp [addOpt, copySeg_eq]
+
+theorem fold_path (raws ds : List Bytes) (acc : List Bytes) (h : decodeAll raws = some ds) :
+    raws.foldl (fun s seg => pathStepM seg s) acc = ds.foldl resolveStep acc := by
+  induction raws generalizing ds acc with
+  | nil => simp [decodeAll] at h; subst h; rfl
+  | cons r rs ih =>
+    simp only [decodeAll] at h
+    cases hd : pctDecode r with
+    | none => simp [hd] at h
+    | some d =>
+      cases ht : decodeAll rs with
+      | none => simp [hd, ht] at h
+      | some t =>
+        simp [hd, ht] at h
+        subst h
+        simp only [List.foldl_cons]
+        have : pathStepM r acc = resolveStep acc d := by
+          unfold pathStepM resolveStep
+          rw [dotKind_decode r d hd, replacePercents_eq r d hd]
+          by_cases e1 : d = dot1
+          · simp [e1]
+          · by_cases e2 : d = dot2
+            · have : dot2 ≠ dot1 := by decide
+              subst e2; simp [this]
+            · simp [e1, e2]
+        rw [this]
+        exact ih t _ ht
+
+theorem fold_query (raws ds : List Bytes) (acc : List Bytes) (h : decodeAll raws = some ds) :
+    raws.foldl (fun s seg => s ++ [replacePercents seg]) acc = acc ++ ds := by
+  induction raws generalizing ds acc with
+  | nil => simp [decodeAll] at h; subst h; simp
+  | cons r rs ih =>
+    simp only [decodeAll] at h
+    cases hd : pctDecode r with
+    | none => simp [hd] at h
+    | some d =>
+      cases ht : decodeAll rs with
+      | none => simp [hd, ht] at h
+      | some t =>
+        simp [hd, ht] at h
+        subst h
+        simp only [List.foldl_cons]
+        rw [ih t _ ht, replacePercents_eq r d hd]
+        simp
+
+theorem pathOpts_fold (input : Bytes) :
+    pathOpts input = R.ok ((rawSegs pathStop pathSep input).foldl (fun s seg => pathStepM seg s) []) := by
+  have := segLoop_eq pathHandlerOpt pathStepM pStop pSep pathHandlerOpt_eq input [] []
+  simpa [pathOpts, rawSegs, pStop_eq, pSep_eq] using this
+
+theorem queryOpts_fold (input : Bytes) :
+    queryOpts input = R.ok ((rawSegs queryStop querySep input).foldl (fun s seg => s ++ [replacePercents seg]) []) := by
+  have := segLoop_eq addOpt (fun seg s => s ++ [replacePercents seg]) qStop qSep addOpt_eq input [] []
+  simpa [queryOpts, rawSegs, qStop_eq, qSep_eq] using this
+
+theorem pathOpts_eq (input : Bytes) (segs : List Bytes) (h : Spec.Uri.splitPath input = some segs) : pathOpts input = R.ok segs := by
+  unfold Spec.Uri.splitPath at h
+  cases hd : decodeAll (rawSegs pathStop pathSep input) with
+  | none => simp [hd] at h
+  | some ds =>
+    simp [hd] at h
+    rw [pathOpts_fold, fold_path _ ds [] hd, ← h]; rfl
+
+theorem queryOpts_eq (input : Bytes) (segs : List Bytes) (h : Spec.Uri.splitQuery input = some segs) : queryOpts input = R.ok segs := by
+  unfold Spec.Uri.splitQuery at h
+  rw [queryOpts_fold, fold_query _ segs [] h]; simp
+
+/-! ### dot segments at the level of S -/
+
+theorem resolve_no_dots (segs acc : List Bytes) (ha : dot1 ∉ acc ∧ dot2 ∉ acc) :
+    dot1 ∉ segs.foldl resolveStep acc ∧ dot2 ∉ segs.foldl resolveStep acc := by
+  induction segs generalizing acc with
+  | nil => exact ha
+  | cons s r ih =>
+    simp only [List.foldl_cons]
+    apply ih
+    unfold resolveStep
+    by_cases e1 : s = dot1
+    · simp [e1, ha]
+    · by_cases e2 : s = dot2
+      · simp only [e1, e2, if_true, if_false]
+        exact ⟨fun h => ha.1 ((List.dropLast_sublist _).subset h), fun h => ha.2 ((List.dropLast_sublist _).subset h)⟩
+      · simp only [e1, e2, if_false, List.mem_append, List.mem_singleton, not_or]
+        exact ⟨⟨ha.1, fun e => e1 e.symm⟩, ⟨ha.2, fun e => e2 e.symm⟩⟩
+
+theorem resolve_id (segs acc : List Bytes) (h : dot1 ∉ segs ∧ dot2 ∉ segs) : segs.foldl resolveStep acc = acc ++ segs := by
+  induction segs generalizing acc with
+  | nil => simp
+  | cons s r ih =>
+    simp only [List.mem_cons, not_or] at h
+    have e1 : s ≠ dot1 := fun e => h.1.1 e.symm
+    have e2 : s ≠ dot2 := fun e => h.2.1 e.symm
+    simp only [List.foldl_cons, resolveStep, e1, e2, if_false]
+    rw [ih _ ⟨h.1.2, h.2.2⟩]; simp
+
 end Coap.UriL
